@@ -196,6 +196,35 @@ static int snap_cmp(const struct snap *a, const struct snap *b, int strict_ev)
 
 static int f_n830;
 
+/* Column address triplets (address 0..39) whose mode puts a character at the
+ * addressed position, i.e. overrides the Level 1 character there: G1 block mosaic,
+ * G3 at Level 1.5 and 2.5, G0, DRCS, G2, and G0 with diacritical mark.  All other
+ * column modes (colours, flash, character set designation, display attributes,
+ * font style, PDC, reserved) leave the Level 1 character in place. */
+static uint8_t f_x26_attr[MAXTX][25][40];   /* positions addressed by a column triplet that places no character */
+static uint8_t f_b2b[MAXTX];                 /* transmission follows one of the same page number without a header in between */
+
+static int x26_mode_places_character(unsigned mode)
+{
+	return mode == 0x01 || mode == 0x02 || mode == 0x09 || mode == 0x0B || mode == 0x0D || mode == 0x0F || (mode >= 0x10 && mode <= 0x1F);
+}
+
+/* EN 300 706 12.2: is a character at column col displayed in mosaics mode?  Mosaic colour codes
+ * 1/1..1/7 switch to mosaics, alpha colour codes 0/0..0/7 back, both "set-after"; every row
+ * starts in alphanumeric mode. */
+static int l1_mosaic_context(const uint8_t *row, int col)
+{
+	int c, mosaic = 0;
+	for (c = 0; c < col; c++) {
+		unsigned v = row[c] & 0x7F;
+		if (v <= 0x07) mosaic = 0;
+		else if (v >= 0x10 && v <= 0x17) mosaic = 1;
+	}
+	return mosaic;
+}
+
+static int f_x26_moved;
+
 static void gen_x26(struct vf_rng *r, struct tx *t, int ndes)
 {
 	unsigned trips[MAXX26 * 13];
@@ -209,15 +238,36 @@ static void gen_x26(struct vf_rng *r, struct tx *t, int ndes)
 		trips[n++] = tx_triplet((unsigned)(rr == 24 ? 40 : 40 + rr), 0x04, (unsigned)col);
 		for (k = 0; k < nc && n < max - 1 && col < 40; k++) {
 			unsigned mode, data;
-			switch (vf_below(r, 6)) {
+			switch (vf_below(r, 10)) {
 			case 0: mode = 0x0F; data = (unsigned)vf_range(r, 0x21, 0x7E); break;      /* G2 character */
 			case 1: case 2: mode = (unsigned)vf_range(r, 0x11, 0x1F); data = (unsigned)vf_range(r, 0x41, 0x7A); break; /* diacritical */
 			case 3: mode = 0x09; data = (unsigned)vf_range(r, 0x21, 0x7E); break;      /* G0 character (2.5) */
 			case 4: mode = 0x01; data = (unsigned)(0x20 | vf_below(r, 0x20) | (vf_below(r, 2) << 6)); break; /* G1 mosaic (2.5) */
-			default: mode = 0x00; data = vf_below(r, 8); break;                         /* foreground colour (2.5) */
+			case 5: mode = 0x00; data = vf_below(r, 8); break;                         /* foreground colour (2.5) */
+			/* column triplets which change how the row is displayed but do not
+			 * put a character at their position (EN 300 706 12.3.4, table 29) */
+			case 6: case 7: mode = 0x0C; data = vf_below(r, 0x80); break;              /* display attributes (2.5) */
+			case 8: mode = 0x0E; data = vf_below(r, 0x80); break;                      /* font style (3.5) */
+			default: {
+				static const uint8_t other[] = { 0x0A /* reserved */, 0x03 /* background colour */, 0x07 /* additional flash functions */ };
+				mode = other[vf_below(r, 3)];
+				data = mode == 0x03 ? vf_below(r, 8) : mode == 0x07 ? vf_below(r, 0x20) : vf_below(r, 0x80);
+				/* --p2 1: modified G0 and G2 character set designation instead (places no character
+				 * either); off by default, see proposed/C03-x26-charset-designation-parity.md */
+				if (vf_param[2]) { mode = 0x08; data = 0; }
+				break; }
+			}
+			/* The Level 1 character at a position overridden by X/26 is outside the parity clause;
+			 * in a mosaic run it is also what "hold mosaics" repeats in the following attribute
+			 * cells, which are not.  Characters are therefore only placed in alphanumeric context
+			 * (see the design note; --p1 1 lifts the restriction). */
+			if (x26_mode_places_character(mode) && l1_mosaic_context(t->row[rr], col) && !vf_param[1]) {
+				mode = 0x0C; data &= 0x7F;
+				f_x26_moved++;
 			}
 			trips[n++] = tx_triplet((unsigned)col, mode, data);
-			if (mode != 0x00) {
+			if (!x26_mode_places_character(mode)) f_x26_attr[t - txs][rr][col] = 1;
+			else {
 				t->x26_pos[rr][col] = 1;
 				/* the Level 1 fallback at an enhanced position is a character, not a spacing attribute */
 				if (t->row[rr][col] < 0x20) t->row[rr][col] = (uint8_t)vf_range(r, 0x61, 0x7A);
@@ -250,7 +300,7 @@ static void gen_small_network(struct vf_rng *r)
 {
 	struct { int pgno, nsub, sub[2], national, flof, nx26, x28; } pd[5];
 	static const int rowpool[] = { 1, 2, 3, 4, 5, 10, 11, 22, 23, 24 };
-	int npages, nm, mags[3], i, j, ntx, clock = 43200, last_pg[8];
+	int npages, nm, mags[3], i, j, ntx, clock = 43200, last_pg[8], rot, np = 0, chain_sub = -1;
 
 	net_serial = vf_chance(r, 1, 2);
 	net_region = 16;
@@ -276,15 +326,27 @@ static void gen_small_network(struct vf_rng *r)
 		pd[i].nx26 = vf_chance(r, 1, 2) ? 0 : vf_range(r, 1, 2);
 		pd[i].x28 = vf_chance(r, 1, 3);
 	}
+	/* one page is a carousel: its two subpages are as a rule sent one right after the other
+	 * (no other header of the magazine in between), and the carousel comes round again */
+	rot = (int)vf_below(r, (unsigned)npages);
+	pd[rot].nsub = 2;
 	ntx = vf_range(r, 5, 9);
 	for (i = 0; i < 8; i++) last_pg[i] = -1;
 	for (i = 0; i < ntx; i++) {
-		int pi = i < npages ? i : (int)vf_below(r, (unsigned)npages), mg, rr, u, nrows;
+		int chained = chain_sub >= 0, pi, si, mg, rr, u, nrows;
 		struct tx *t = &txs[n_tx];
 		struct mpage *mp;
+		if (chained) pi = rot;
+		else if (np < npages) pi = np++;
+		else if (np++ == npages && vf_chance(r, 3, 4)) pi = rot;
+		else pi = (int)vf_below(r, (unsigned)npages);
 		memset(t, 0, sizeof *t);
+		memset(f_x26_attr[n_tx], 0, sizeof f_x26_attr[n_tx]);
+		f_b2b[n_tx] = 0;
 		t->pgno = pd[pi].pgno; t->mag = t->pgno >> 8; mg = t->mag & 7;
-		t->subno = pd[pi].nsub ? pd[pi].sub[vf_below(r, (unsigned)pd[pi].nsub)] : 0;
+		si = chained ? chain_sub : pd[pi].nsub ? (int)vf_below(r, (unsigned)pd[pi].nsub) : 0;
+		t->subno = pd[pi].nsub ? pd[pi].sub[si] : 0;
+		chain_sub = (!chained && pi == rot && i + 1 < ntx && vf_chance(r, 3, 4)) ? 1 - si : -1;
 		t->national = pd[pi].national;
 		t->ctl = net_serial ? CB(11) : 0;
 		mp = mp_find(t->pgno, t->subno);
@@ -314,7 +376,8 @@ static void gen_small_network(struct vf_rng *r)
 		if (pd[pi].nx26) gen_x26(r, t, pd[pi].nx26);
 		t->has_x28 = pd[pi].x28;
 		mp_apply(t);
-		if (last_pg[mg] == t->pgno || vf_chance(r, 1, 10)) { u = make_filler_unit(t->mag); queue[mg][qlen[mg]++] = u; }
+		if (chained ? vf_chance(r, 1, 8) : (last_pg[mg] == t->pgno || vf_chance(r, 1, 10))) { u = make_filler_unit(t->mag); queue[mg][qlen[mg]++] = u; }
+		else if (chained) f_b2b[n_tx] = 1;
 		u = make_tx_unit(n_tx);
 		queue[mg][qlen[mg]++] = u;
 		last_pg[mg] = t->pgno;
@@ -480,6 +543,17 @@ static int check_header_rule(const struct snap *cur, int pi)
 	/* transmissions in progress at packet pi: open in any magazine, terminated by it, or opened by it */
 	for (i = 0; i < n_tx; i++)
 		if (txs[i].hdr_pos <= pi && pi <= txs[i].term_pos && nc < 10) cand[nc++] = i;
+	/* A header repeating the page number of the page in progress (next subpage of a carousel sent
+	   right behind, no erase flag) continues that page for this decoder in every run, the fault-free
+	   one included.  So the transmission in front of such a header is still in progress with it, and
+	   a reference that abandons the second must be able to abandon the first as well: replacing the
+	   second header by a time filling header would otherwise terminate and store the first, which
+	   no run with the real header does. */
+	for (m = 0; m < nc; m++)
+		if (f_b2b[cand[m]] && nc < 10) {
+			for (i = 0; i < nc; i++) if (cand[i] == cand[m] - 1) break;
+			if (i == nc) cand[nc++] = cand[m] - 1;
+		}
 	for (sub = 0; sub < (1 << nc); sub++) {
 		memcpy(f_alt, pks, sizeof pks[0] * (size_t)n_pk);
 		memset(skip, 0, sizeof skip);
@@ -564,6 +638,7 @@ static int run_faults(struct vf_rng *r, long idx)
 				const char *bad;
 				const struct tx *t = &txs[p->tx];
 				nB++;
+				if (role == RO_TEXT && f_x26_attr[p->tx][p->row][j - 2]) vf_count("parity_faults_at_x26_attribute_position", 1);
 				if (role == RO_TEXT) need_s1(pi);
 				bad = check_parity_rule(&SC, pi, role == RO_HDRTEXT);
 				if (bad) {
@@ -621,7 +696,16 @@ static int run_faults(struct vf_rng *r, long idx)
 					if (!n)
 						vf_fail("model:C03:uncorrectable-header-not-contained", "%s: state is not the error-free state with some of the pages in progress abandoned; versus error-free: %s",
 							fault_desc(p, pi, what), (snap_cmp(&SC, &S0, 0), f_why));
-					else { vf_sig("kind=%s role=%s outcome=abandoned-%d", pk_kind_name[p->kind], role_name[role], n - 1); vf_count("headers_uncorrectable", 1); }
+					else {
+						int rotating = p->kind == PK_HEADER && f_b2b[p->tx];
+						vf_sig("kind=%s role=%s outcome=abandoned-%d%s", pk_kind_name[p->kind], role_name[role], n - 1, rotating ? " between-subpages" : "");
+						vf_count("headers_uncorrectable", 1);
+						if (rotating) {
+							const struct tx *t0 = &txs[p->tx - 1];   /* the subpage in progress */
+							vf_count("headers_uncorrectable_between_subpages", 1);
+							if (t0->prev_rows && !(t0->ctl & CB(4))) vf_count("headers_uncorrectable_between_subpages_first_cached_no_erase", 1);
+						}
+					}
 				} else
 					vf_sig("kind=%s role=%s outcome=keys-contained-double", pk_kind_name[p->kind], role_name[role]);
 			}
@@ -650,5 +734,6 @@ static int run_faults(struct vf_rng *r, long idx)
 	vf_count("faults_double", nC);
 	vf_count("decoder_runs", f_runs); f_runs = 0;
 	{ char n[32]; snprintf(n, sizeof n, "packets_%s", pk_kind_name[p->kind]); vf_count(n, 1); }
+	if (p->kind == PK_HEADER && f_b2b[p->tx]) vf_count("packets_header_following_same_page_header", 1);
 	return 1;
 }
